@@ -52,3 +52,9 @@ package conan
 //@ func (*VersionRange).Contains
 //@   requires wfRange(r)
 //@   ensures or: result == (exists g int :: 0 <= g && g < len(r.orGroups) && r.groupSatisfied(r.orGroups[g], version))   [C02 C20]
+
+//@ func extractLeadingNumber
+//@   ensures prefix-length: len(result) <= len(s)
+
+//@ func rebuildConstraintsFromParts
+//@   loop 1 invariant 0 <= i
